@@ -734,17 +734,23 @@ func TestVerif_C15_ConfigRegistry(t *testing.T) {
 				_, hung := run(id, "crash-load", a, -1)
 				scen++
 				index = append(index, vObj{"id": id, "hung": hung})
-				// (b) each follow-up directly on the unhealed state, then a load
+				// (b) each follow-up directly on the unhealed state, then a load; (c) the same after a healing load
 				for fi, f := range plan.Followups {
-					if (si+oi+k+fi+seed)%plan.Stride != 0 {
-						continue
-					}
 					f.N = 2
-					b := append(append([]vC15Op{}, pre...), f, vC15Op{N: 2, T: "L"})
-					id := fmt.Sprintf("crash/%s/%s@%d/%s", sh.Name, op.String(), k, f.String())
-					_, hung := run(id, "crash-followup", b, -1)
-					scen++
-					index = append(index, vObj{"id": id, "hung": hung})
+					if (si+oi+k+fi+seed)%plan.Stride == 0 {
+						b := append(append([]vC15Op{}, pre...), f, vC15Op{N: 2, T: "L"})
+						id := fmt.Sprintf("crash/%s/%s@%d/%s", sh.Name, op.String(), k, f.String())
+						_, hung := run(id, "crash-followup", b, -1)
+						scen++
+						index = append(index, vObj{"id": id, "hung": hung})
+					}
+					if (si+oi+k+fi+seed+1)%plan.Stride == 0 {
+						c := append(append([]vC15Op{}, pre...), vC15Op{N: 2, T: "L"}, f, vC15Op{N: 2, T: "L"})
+						id := fmt.Sprintf("crash/%s/%s@%d/load-then-%s", sh.Name, op.String(), k, f.String())
+						_, hung := run(id, "crash-load-followup", c, -1)
+						scen++
+						index = append(index, vObj{"id": id, "hung": hung})
+					}
 				}
 			}
 		}
